@@ -1,8 +1,12 @@
 pub mod engine;
 pub mod flavours;
 pub mod gen;
+pub mod guard;
 pub mod json;
 pub mod lib_util;
 pub mod props;
 pub mod refint;
 pub mod refint_selftest;
+
+#[global_allocator]
+static GLOBAL: guard::GuardAlloc = guard::GuardAlloc;
